@@ -18,7 +18,7 @@ import (
 func init() {
 	core.Register(&core.Prop{
 		ID: "C11",
-		Rule: "case = one insert/delete history (50-2000 operations built from phases: grow, drain to empty, refill, oscillate around split/underflow sizes, delete in insertion / reverse / random order, absent-object deletes) on a tree with branching parameters drawn from all valid (min,max), 2<=min<=max/2, max<=16; objects are *Bounds pointers, Point values (duplicates equal) and a harness pointer type, on a small integer grid (coincident and touching boxes frequent) or floats; 15% of histories draw most objects from a palette of 1..5 boxes (whole nodes of coincident entries), half of those with fan-outs 17..100; " +
+		Rule: "case = one insert/delete history (50-2000 operations built from phases: grow, drain to empty, refill, oscillate around split/underflow sizes, delete in insertion / reverse / random order, absent-object deletes) on a tree with branching parameters drawn from all valid (min,max), 2<=min<=max/2, max<=16; objects are *Bounds pointers, Point values (duplicates equal) and a harness pointer type, on a small integer grid (coincident and touching boxes frequent) or floats; runs of concentric boxes stored outside-in followed by their centre point; 15% of histories draw most objects from a palette of 1..5 boxes (whole nodes of coincident entries), half of those with fan-outs 17..100; " +
 			"after EVERY operation a brute-force multiset model is compared (Size, Delete result, 6 SearchIntersect queries incl. degenerate/touching/empty/whole-space) and the hooked node structure is walked (all leaves at one depth, Depth() equals it, every entry box == exact envelope of its subtree, fan-out <= max, leaf entries carry objects, objects in leaves == Size); " +
 			"an evaluation is one operation judged; non-trivial = history in which the walker observed a root collapse (height decrease); distinct by history hash",
 		Assumptions: []string{"objects are comparable (pointers, points, boxes) as the property states", "parent-link and level consistency are recorded, not judged (not stated by the property)"},
@@ -42,7 +42,7 @@ func init() {
 			if t == "thorough" {
 				return 40000
 			}
-			return 1200
+			return 3000
 		}}},
 		Run: func(c *core.Ctx, idx int) { runHistory(c, idx, true) },
 		Floors: func(t string) map[string]int64 {
@@ -66,23 +66,25 @@ type stored struct {
 }
 
 type hist struct {
-	c       *core.Ctx
-	r       *gen.R
-	tree    *rtree.Rtree
-	min     int
-	max     int
-	model   []stored
-	nextID  int
-	float   bool
-	log     []string
-	hash    *core.Hasher
-	prevH   int
-	sawColl bool
-	sawIntU bool
-	removed []stored // previously deleted objects (for absent deletes)
-	failed  bool
-	nn      bool
-	palette []geom.Bounds // when non-empty most new objects take one of these few boxes
+	c                  *core.Ctx
+	r                  *gen.R
+	tree               *rtree.Rtree
+	min                int
+	max                int
+	model              []stored
+	nextID             int
+	float              bool
+	log                []string
+	hash               *core.Hasher
+	prevH              int
+	sawColl            bool
+	sawIntU            bool
+	removed            []stored // previously deleted objects (for absent deletes)
+	failed             bool
+	nn                 bool
+	loose              bool          // C12: the last structure walk saw a non-tight node box
+	looseBox, looseEnv geom.Bounds   // that box and the true envelope of its subtree
+	palette            []geom.Bounds // when non-empty most new objects take one of these few boxes
 }
 
 func (h *hist) coord() float64 {
@@ -362,6 +364,7 @@ func (h *hist) walk() bool {
 						problem, key = "internal entry pointing at an empty node", "walker-empty-node"
 					}
 				} else if ce != b && problem == "" {
+					h.looseBox, h.looseEnv = b, ce
 					problem, key = fmt.Sprintf("entry box %v is not the exact envelope %v of its subtree (depth %d)", b, ce, depth), "walker-envelope"
 				}
 			}
@@ -407,6 +410,7 @@ func (h *hist) walk() bool {
 		if h.nn {
 			// C12 only uses the walk for tree-shape coverage; structure is C11's business
 			c.Count("walker.note.structure_problem_seen")
+			h.loose = true
 			return true
 		}
 		h.violate(key, "structure walk after the last operation: "+problem)
@@ -430,8 +434,8 @@ func runHistory(c *core.Ctx, idx int, nn bool) {
 	pp := paramPairs[r.Intn(len(paramPairs))]
 	if r.Chance(0.4) {
 		pp = paramPairs[r.Intn(6)] // small fan-outs make deep trees
-	} else if r.Chance(0.1) {
-		pp = [][2]int{{25, 50}, {2, 64}, {32, 64}, {3, 100}, {16, 33}, {2, 40}, {10, 32}, {8, 17}}[r.Intn(8)] // large fan-outs (route uses 25/50)
+	} else if r.Chance(0.2) {
+		pp = [][2]int{{25, 50}, {2, 64}, {32, 64}, {3, 100}, {16, 33}, {2, 40}, {10, 32}, {8, 17}, {20, 41}, {5, 48}}[r.Intn(10)] // large fan-outs (route uses 25/50)
 	}
 	h := &hist{c: c, r: r, min: pp[0], max: pp[1], float: r.Chance(0.3), hash: core.NewHasher(), nn: nn}
 	if r.Chance(0.15) {
@@ -462,7 +466,40 @@ func runHistory(c *core.Ctx, idx int, nn bool) {
 	phases := 0
 	for !h.failed && ops < budget {
 		phases++
-		switch r.Intn(8) {
+		pick := r.Intn(9)
+		if h.max >= 32 && r.Chance(0.25) {
+			pick = 8
+		}
+		switch pick {
+		case 8: // concentric boxes stored outside-in (each new box strictly inside all earlier ones), then their common centre as a point
+			cx, cy := h.coord(), h.coord()
+			n := r.IntRange(3, h.max+3)
+			for i := 0; i < n && step(); i++ {
+				half := float64(n-i) * 0.01
+				if !h.float {
+					half = float64(n - i)
+				}
+				s := h.newObj()
+				b := geom.Bounds{Min: geom.Point{X: cx - half, Y: cy - half}, Max: geom.Point{X: cx + half, Y: cy + half}}
+				switch o := s.obj.(type) {
+				case *geom.Bounds:
+					*o = b
+					s.box = b
+				case *boxObj:
+					*o.bx = b
+					s.box = b
+				default:
+					bb := b
+					s = stored{obj: &bb, box: b, id: s.id}
+				}
+				h.insert(s)
+			}
+			if step() {
+				p := geom.Point{X: cx, Y: cy}
+				h.nextID++
+				h.insert(stored{obj: p, box: geom.Bounds{Min: p, Max: p}, id: h.nextID})
+			}
+			h.c.Count("hist.concentric_outside_in")
 		case 0: // grow
 			n := r.IntRange(1, 3*h.max)
 			for i := 0; i < n && step(); i++ {
@@ -580,11 +617,46 @@ func (h *hist) queryNN() {
 	c, r := h.c, h.r
 	size := len(h.model)
 	depth := h.prevH
-	for q := 0; q < 6; q++ {
+	nq := 6
+	if h.loose {
+		// the structure walk has just seen a node box that is not the tight envelope of its
+		// subtree (C11 judges that); MINMAXDIST pruning relies on tight boxes, so the
+		// neighbourhood of the tree is now queried densely
+		nq = 250
+		h.loose = false
+		c.Count("nn.burst_after_loose_envelope")
+	}
+	for q := 0; q < nq; q++ {
 		var p geom.Point
 		m := h.model[r.Intn(size)].box
 		cat := ""
-		switch r.Intn(5) {
+		pick := r.Intn(6)
+		if nq > 6 {
+			pick = 5
+		}
+		switch pick {
+		case 5:
+			p = geom.Point{X: r.Range(-12, 36), Y: r.Range(-12, 36)}
+			if nq > 6 && r.Chance(0.7) {
+				// next to a face of the loose box that its contents no longer reach
+				b, e := h.looseBox, h.looseEnv
+				slackTop, slackBot, slackR, slackL := b.Max.Y-e.Max.Y, e.Min.Y-b.Min.Y, b.Max.X-e.Max.X, e.Min.X-b.Min.X
+				w := math.Max(b.Max.X-b.Min.X, b.Max.Y-b.Min.Y) + 2
+				switch {
+				case slackTop > 0 && r.Chance(0.6):
+					p = geom.Point{X: r.Range(b.Min.X-w, b.Max.X+w), Y: r.Range(e.Max.Y, b.Max.Y+2*slackTop+w)}
+				case slackBot > 0 && r.Chance(0.6):
+					p = geom.Point{X: r.Range(b.Min.X-w, b.Max.X+w), Y: r.Range(b.Min.Y-2*slackBot-w, e.Min.Y)}
+				case slackR > 0 && r.Chance(0.6):
+					p = geom.Point{X: r.Range(e.Max.X, b.Max.X+2*slackR+w), Y: r.Range(b.Min.Y-w, b.Max.Y+w)}
+				case slackL > 0:
+					p = geom.Point{X: r.Range(b.Min.X-2*slackL-w, e.Min.X), Y: r.Range(b.Min.Y-w, b.Max.Y+w)}
+				}
+			}
+			if !h.float && r.Bool() {
+				p = geom.Point{X: math.Round(p.X*4) / 4, Y: math.Round(p.Y*4) / 4}
+			}
+			cat = "around_the_root_box"
 		case 0:
 			p = geom.Point{X: (m.Min.X + m.Max.X) / 2, Y: (m.Min.Y + m.Max.Y) / 2}
 			cat = "inside_box"
